@@ -92,6 +92,7 @@ CLAIMS.update({
             'ClientConnected adds exactly one new session in a free slot with an id and address not connected before; ClientDisconnected removes exactly the named session; any other outcome leaves the set of sessions and their keys as they were; '
             'a payload is attributed to the session of the sending address; a request never touches the table of connected clients.',
             'update_client and disconnect remove exactly the named session and report exactly that id and address; generate_payload_packet addresses the session registered under the id; client_addr / user_data / is_client_connected answer for the one session registered under that id; set_max_clients changes only the limit. '
+            'Bounded stand-in (U21, Kani, NOT counted as proved): the four lookup helpers find_client_{by_id, mut_by_id, slot_by_id, mut_by_addr}, which U19 uses through assumed contracts, satisfy exactly those contract clauses on every 4-slot table. '
             'Assumed: find_client_* / free-slot search (one-line iterator chains) by their evident contracts; AEAD idealisation. NetcodeServer::update drops a half-open session exactly when its token expired (loop body proved, D6; values_mut induction and HashMap::retain assumed, D18/D19). the bound max_clients (the table length is fixed at construction; lowering the limit is outside the property).'),
     'C14': ('Per channel call: payload bytes put into packets (plus the pending small-message batch) equal the decrease of available_bytes, which never grows; '
             'a reliable message or slice that does not fit stays queued untouched, an unreliable message that does not fit is dropped whole (Verus: SendChannelUnreliable::get_packets_to_send '
